@@ -247,7 +247,7 @@ static void body(Ctx& C)
    }
    const int thread_counts_quick[] = { 2, 3, 4, 8, 16 };
    const int thread_counts_thorough[] = { 2, 3, 4, 8, 16, 32 };
-   const int rounds = aux ? 3 : (C.thorough ? 60 : 6);
+   const int rounds = aux ? 3 : (C.thorough ? 150 : 6);
    long long overlap_ticks = 0, total_ticks = 0, alternations = 0, sharing_checked = 0, shared_constants = 0;
    for (int round = 0; round < rounds; ++round) {
       const int T = aux ? (round == 0 ? 2 : 4) : (C.thorough ? thread_counts_thorough[round % 6] : thread_counts_quick[(round + C.worker) % 5]);
